@@ -356,3 +356,50 @@ Definition sub_step (maxq maxfl : Z) (s : sub) (o : sop) : sub :=
 Definition sub_init : sub := mkSub [] 0 false true 0 [] [].
 
 Definition sub_run (maxq maxfl : Z) (ops : list sop) : sub := fold_left (sub_step maxq maxfl) ops sub_init.
+
+(* ---------------------------------------------------------------- subscribe(catch_up) *)
+(* Subscription.subscribe: the catch-up batch = every buffered event sorted by number goes straight to the observer
+   (callRemoteOnly: no Deferred, not counted in flight); the subscription itself starts with an empty queue *)
+Definition sub_subscribe (catch_up : bool) (b : bufs_t) : sub * list event :=
+  match catchup with
+  | CatchupDirect => (sub_init, if catch_up then sort_by_num (all_buffered b) else [])
+  end.
+
+(* ---------------------------------------------------------------- written files read back *)
+(* A flogfile is MAGIC + one JSON line per record, optionally bz2-compressed.  get_events chooses the decompressor from
+   the name it reads (".bz2" suffix); every writer chooses the compressor from a name: the translated shape facts say
+   WHICH name (the final one or the one actually opened, which differ for `flogtool filter` in place: FINAL + ".tmp") *)
+Inductive codec := Plain | Bz2.
+
+Definition codec_eqb (a b : codec) : bool := match a, b with Plain, Plain => true | Bz2, Bz2 => true | _, _ => false end.
+
+Definition codec_of_name (ends_bz2 : bool) : codec := if ends_bz2 then Bz2 else Plain.
+
+(* name the data is first written to: in-place filtering writes FINAL.tmp (never ends in .bz2), then renames *)
+Definition opened_ends_bz2 (final_bz2 inplace : bool) : bool := if inplace then false else final_bz2.
+
+Definition write_codec (from : name_used) (final_bz2 inplace : bool) : codec :=
+  match from with
+  | FinalName => codec_of_name final_bz2
+  | OpenedName => codec_of_name (opened_ends_bz2 final_bz2 inplace)
+  end.
+
+(* get_events on a file called NAME whose content was produced with codec w: Some lines, or None = cannot be read *)
+Definition read_back {A} (name_bz2 : bool) (w : codec) (lines : list A) : option (list A) :=
+  if codec_eqb (codec_of_name name_bz2) w then Some lines else None.
+
+(* flogtool filter: the records kept.  A record is a header (always kept) or an event with its level and whether its
+   facility starts with the --strip-facility prefix *)
+Record frec := mkFrec { fr_header : bool; fr_lvl : Z; fr_stripped : bool; fr_id : Z }.
+
+Definition filter_keep (above : option Z) (strip : bool) (r : frec) : bool :=
+  fr_header r ||
+  (match above with Some a => negb (cmpZ filter_above_drop_cmp (fr_lvl r) a) | None => true end
+   && negb (strip && fr_stripped r)).
+
+Definition filter_run (above : option Z) (strip : bool) (final_bz2 inplace : bool) (recs : list frec)
+  : option (list frec) :=
+  read_back final_bz2 (write_codec filter_codec_from final_bz2 inplace) (filter (filter_keep above strip) recs).
+
+Definition logfile_written (name_bz2 : bool) (recs : list frec) : option (list frec) :=
+  read_back name_bz2 (write_codec logfile_codec_from name_bz2 false) recs.
